@@ -239,7 +239,8 @@ func (s *indexKVStore) PrepareFlush() {
 	s.lock.Lock()
 	defer s.lock.Unlock()
 
-	if s.immutable == nil {
+	if s.immutable == nil || s.immutable.IsEmpty() {
+		// an empty immutable store (left by a flush that had nothing to write) must not block the swap forever
 		s.immutable = s.mutable
 		s.mutable = imap.NewIntMap[map[string]uint32]()
 	}
